@@ -115,15 +115,90 @@ def temp_case_from_json(j):
             j["annealing_n_iter"], j["annealing_n_iter_frac"])
 
 
-def run_temp(env, c):
+ANNEALING_DEFAULTS = dict(initial_temperature=10, n_plateau=10, n_iter=None, n_iter_frac=0.5)   # documented defaults (all three algorithms)
+
+
+def _np_typed(x, np):
+    if isinstance(x, bool) or x is None:
+        return x
+    if isinstance(x, int):
+        return np.int64(x)
+    if isinstance(x, float):
+        return np.float64(x)
+    return x
+
+
+class SettingsWrittenBack(Exception):
+    pass
+
+
+def _build_temp_algo(env, c, how):
+    """The real algorithm object of configuration `c`, built the way `how` says:
+      omit    = [keys of the annealing dictionary left out by the caller] (their documented defaults then apply; `c` carries them)
+      via     = "json": the settings are saved with `AlgorithmSettings.save` and read back with `AlgorithmSettings.load`
+      numpy   = True: n_iter, initial temperature, annealing count and fraction given as numpy scalars (n_plateau stays an int)
+      reconf  = {"first": annealing dict the object is BUILT with, "when": "before" | "between"}: the annealing dictionary of `c`
+                is given afterwards through the documented `load_parameters` — before the first run, or between a complete first
+                run and the second one; the schedule observed after that must be the one of `c`."""
+    import os
+    import tempfile
+    algo_name, n_iter, on, T0, P, na, frac = c
+    how = how or {}
+    ann = dict(do_annealing=on, initial_temperature=T0, n_plateau=P, n_iter=na, n_iter_frac=frac)
+    n_iter_arg = n_iter
+    if how.get("numpy"):
+        np = env["np"]
+        ann.update(initial_temperature=_np_typed(T0, np), n_iter=_np_typed(na, np), n_iter_frac=_np_typed(frac, np))
+        n_iter_arg = _np_typed(n_iter, np)
+    given = {k: v for k, v in ann.items() if k not in (how.get("omit") or [])}
+    first = how["reconf"]["first"] if how.get("reconf") else given
+    with warnings.catch_warnings():
+        warnings.simplefilter("ignore")
+        settings = env["AlgorithmSettings"](algo_name, n_iter=n_iter_arg, seed=0, progress_bar=False, annealing=dict(first))
+        if how.get("via") == "json":
+            fd, path = tempfile.mkstemp(suffix=".json", prefix="c19_settings_")
+            os.close(fd)
+            try:
+                with core.quiet():
+                    settings.save(path)
+                    settings = env["AlgorithmSettings"].load(path)
+            finally:
+                os.unlink(path)
+        if how.get("reused"):
+            # ONE settings object serves several algorithms (a short trial run first, then the real one): building an algorithm
+            # must not write anything back into the settings, and the later algorithm follows the settings as they are then
+            import copy as _copy
+            settings.parameters["n_iter"] = how["reused"]
+            before = _copy.deepcopy(settings.parameters)
+            trial = env["algorithm_factory"](settings)
+            try:
+                trial._initialize_annealing()
+            except Exception:  # noqa
+                pass
+            if settings.parameters != before:
+                changed = sorted(k for k in before if settings.parameters.get(k) != before[k])
+                raise SettingsWrittenBack(f"building (and initialising) an algorithm modified the settings it was built from: {changed} "
+                                          f"-> {[settings.parameters.get(k) for k in changed]}")
+            settings.parameters["n_iter"] = n_iter_arg
+        algo = env["algorithm_factory"](settings)
+        if how.get("reconf"):
+            if how["reconf"]["when"] == "between":
+                algo._initialize_annealing()
+                for k in range(1, n_iter + 1):
+                    algo.current_iteration = k
+                    algo._update_temperature()
+            with core.quiet():
+                algo.load_parameters({"annealing": dict(given)})
+    return algo
+
+
+def run_temp(env, c, how=None):
     """Drive the real mixin: constructor, `_initialize_annealing`, then `_update_temperature` per iteration."""
     algo_name, n_iter, on, T0, P, na, frac = c
-    ann = dict(do_annealing=on, initial_temperature=T0, n_plateau=P, n_iter=na, n_iter_frac=frac)
     try:
-        with warnings.catch_warnings():
-            warnings.simplefilter("ignore")
-            algo = env["algorithm_factory"](env["AlgorithmSettings"](
-                algo_name, n_iter=n_iter, seed=0, progress_bar=False, annealing=ann))
+        algo = _build_temp_algo(env, c, how)
+    except SettingsWrittenBack as e:
+        return {"stage": "ctor", "outcome": "err:other:SettingsWrittenBack", "settings_written_back": str(e)}
     except Exception as e:  # noqa
         return {"stage": "ctor", "outcome": err_class(env, e)}
     res = {"na": algo.algo_parameters["annealing"].get("n_iter")}
@@ -179,6 +254,8 @@ def temp_predicate(c, res):
     """C19 (temperature clauses) on the observed behaviour. Returns [(what, finding-id or None)]."""
     algo, n_iter, on, T0, P, na, frac = c
     fails = []
+    if res.get("settings_written_back"):
+        return [(res["settings_written_back"], None)]
     n_a = expected_na(c)
     if not on:
         if res["stage"] != "done":
@@ -211,6 +288,9 @@ def temp_predicate(c, res):
         return fails
     if res["na"] != n_a:
         fails.append((f"annealing iterations {res['na']!r}, configured {n_a!r}", None))
+    if T0 != T0:
+        fails.append(("an initial temperature of NaN is accepted (no temperature clause can hold: NaN is neither >= 1 nor comparable)", None))
+        return fails
     if not T[0] == T0:
         fails.append((f"starts at {T[0]!r}, initial temperature is {T0!r}", None))
     period = (n_a // (P - 1)) if (P >= 2 and n_a is not None) else None
@@ -352,20 +432,27 @@ def random_temp_cases(chk, n):
     return out
 
 
-def check_temp_cases(chk, env, cases, sample_some=True):
+def check_temp_cases(chk, env, cases, sample_some=True, hows=None):
+    """hows: None or one entry per case (None or the `how` dictionary of `_build_temp_algo`): the expected behaviour is that of
+    the configuration whatever the way it reached the algorithm object."""
     results = []
-    for c in cases:
-        res = run_temp(env, c)
+    hows = hows or [None] * len(cases)
+    for c, how in zip(cases, hows):
+        res = run_temp(env, c, how)
         results.append(res)
+        cj = temp_case_json(c)
+        if how:
+            cj["how"] = how
         for what, fid in temp_predicate(c, res)[:3]:
-            chk.impl_failure(temp_case_json(c), what, finding=fid)
+            chk.impl_failure(cj, (f"(configuration given through {_how_text(how)}) " if how else "") + what, finding=fid)
         algo, n_iter, on, T0, P, na, frac = c
-        chk.case(("temp",) + tuple(map(repr, c)), nontrivial=temp_nontrivial(c, res),
-                 sample=temp_case_json(c) if (sample_some and len(chk.samples) < 3 and n_iter == 12 and on and res["stage"] == "done") else None,
+        chk.case(("temp",) + tuple(map(repr, c)) + ((repr(sorted(how.items())),) if how else ()), nontrivial=temp_nontrivial(c, res),
+                 sample=cj if (sample_some and len(chk.samples) < 3 and n_iter == 12 and on and res["stage"] == "done") else None,
                  tags={"kind": "temperature", "temp_outcome": res["stage"] + ":" + res["outcome"],
                        "n_plateau": P if (is_plain_int(P) and P < 13) else "other",
                        "n_iter_bucket": min((n_iter // 10) * 10, 100), "algo": algo,
-                       "given": "count" if na is not None else ("frac" if frac is not None else "none")})
+                       "given": "count" if na is not None else ("frac" if frac is not None else "none"),
+                       "temp_how": _how_tag(how)})
     idx = [i for i, c in enumerate(cases) if temp_modelable(c)]
     out = chk.model([temp_request(cases[i]) for i in idx])
     for i, resp in zip(idx, out):
@@ -374,8 +461,148 @@ def check_temp_cases(chk, env, cases, sample_some=True):
             what = "temperature schedule (float64 bit patterns)"
             if impl.split(" ")[0] != resp.split(" ")[0]:
                 what = "accepted / refused / crashed"
-            chk.disagree(temp_case_json(cases[i]), _short(impl), _short(resp), what)
+            cj = temp_case_json(cases[i])
+            if hows[i]:
+                cj["how"] = hows[i]
+            chk.disagree(cj, _short(impl), _short(resp), what)
     return results
+
+
+def _how_tag(how):
+    if not how:
+        return "keyword arguments, full dictionary"
+    return ("partial dictionary" if how.get("omit") else "settings file" if how.get("via") else "numpy scalars" if how.get("numpy")
+            else "settings object reused" if how.get("reused") else "load_parameters " + how["reconf"]["when"])
+
+
+def _how_text(how):
+    if not how:
+        return "keyword arguments"
+    bits = []
+    if how.get("omit"):
+        bits.append("a partial annealing dictionary (defaults for " + ", ".join(how["omit"]) + ")")
+    if how.get("via"):
+        bits.append("a settings file")
+    if how.get("numpy"):
+        bits.append("numpy scalars")
+    if how.get("reused"):
+        bits.append(f"a settings object used before for a run of {how['reused']} iterations")
+    if how.get("reconf"):
+        bits.append("load_parameters " + ("before the first run" if how["reconf"]["when"] == "before" else "between two runs")
+                    + " of an object built with another annealing dictionary")
+    return " + ".join(bits)
+
+
+def variant_temp_cases(chk):
+    """(cases, hows): configurations reaching the algorithm object by the other documented ways."""
+    rng = chk.rng
+    cases, hows = [], []
+    n = 600 if chk.tier == "thorough" else 150
+
+    def accepted(n_iter, explicit=False):
+        P = rng.choice([2, 2, 3, 4, 5, 8, 10])
+        T0 = rng.choice([1.5, 2, 3.3, 5, 10, 10])
+        if explicit or rng.random() < 0.4:
+            return (T0, P, rng.randrange(max(P - 1, 1), max(P - 1, 1) + n_iter + 3), rng.choice([None, 0.5]))
+        return (T0, P, None, rng.choice([0.3, 0.5, 0.5, 0.67, 0.8, 1.0]))
+
+    for _ in range(n):
+        algo = rng.choice(ALGOS)
+        n_iter = rng.randrange(4, 60)
+        r = rng.random()
+        if r < 0.3:
+            # partial dictionary: the omitted keys take the documented defaults
+            T0, P, na, frac = accepted(n_iter)
+            omit = [k for k in ("initial_temperature", "n_plateau", "n_iter", "n_iter_frac") if rng.random() < 0.5]
+            if "initial_temperature" in omit:
+                T0 = ANNEALING_DEFAULTS["initial_temperature"]
+            if "n_plateau" in omit:
+                P = ANNEALING_DEFAULTS["n_plateau"]
+            if "n_iter" in omit:
+                na = None
+            if "n_iter_frac" in omit:
+                frac = ANNEALING_DEFAULTS["n_iter_frac"]
+            if not omit:
+                omit = ["n_iter"]
+                na = None
+            cases.append((algo, n_iter, True, T0, P, na, frac))
+            hows.append({"omit": omit})
+        elif r < 0.5:
+            c = rng.choice(random_temp_cases(chk, 3))
+            if not temp_modelable(c) or not math.isfinite(float(c[3])):
+                c = (algo, n_iter, True) + accepted(n_iter)
+            cases.append(c)
+            hows.append({"via": "json"})
+        elif r < 0.65:
+            cases.append((algo, n_iter, True) + accepted(n_iter))
+            hows.append({"numpy": True})
+        elif r < 0.8:
+            # fraction-defined annealing, settings object used first for a run of another length
+            T0, P, na, frac = accepted(n_iter)
+            cases.append((algo, n_iter, True, T0, P, None, frac if frac is not None else 0.5))
+            hows.append({"reused": rng.choice([max(2, n_iter // 3), n_iter * 2, n_iter + 7])})
+        else:
+            # the annealing dictionary replaced after construction (explicit count: only the constructor derives it from a fraction)
+            T0, P, na, frac = accepted(n_iter, explicit=True)
+            T1, P1, na1, _ = accepted(n_iter, explicit=True)
+            first = dict(do_annealing=True, initial_temperature=T1, n_plateau=P1, n_iter=na1, n_iter_frac=None)
+            cases.append((algo, n_iter, True, T0, P, na, None))
+            hows.append({"reconf": {"first": first, "when": rng.choice(["before", "between"])}})
+    return cases, hows
+
+
+def boundary_temp_cases(chk):
+    """Boundary values the grids do not contain: a NaN initial temperature (must be refused: no comparison with NaN holds),
+    fractions whose double product with n_iter falls just below an integer (0.29 * 100 = 28.999...: the annealing lasts 28
+    iterations), many plateaus, long runs."""
+    rng = chk.rng
+    out = [("mcmc_saem", 20, True, float("nan"), 1, None, 0.5), ("mcmc_saem", 20, True, float("nan"), 4, None, 0.5),
+           ("mean_posterior", 20, True, float("nan"), 3, 6, None)]
+    traps = [(n, j) for n in range(2, 401) for j in range(1, 100) if (n * j) % 100 == 0 and int((j / 100) * n) != (n * j) // 100]
+    for n, j in rng.sample(traps, min(len(traps), 120 if chk.tier == "thorough" else 40)):
+        P = rng.choice([2, 3, 5, 8])
+        out.append((rng.choice(ALGOS), n, True, rng.choice([2, 3.3, 10]), P, None, j / 100))
+    for _ in range(12 if chk.tier == "thorough" else 4):
+        n_iter = rng.randrange(2000, 20000)
+        P = rng.choice([rng.randrange(100, 2000), rng.randrange(2, 30), 10])
+        out.append((rng.choice(ALGOS), n_iter, True, rng.choice([10, 3.3, round(rng.uniform(1, 50), 2), 100]), P, None,
+                    rng.choice([0.5, 0.9, 1.0, rng.random()])))
+    return out
+
+
+def na_derivation_check(chk, env):
+    """Constructor only, n_iter up to 1e7 (the documented default of mcmc_saem is 10000): the number of annealing iterations is
+    the integer part of fraction * n_iter (double product), an explicit count is taken as it is. Predicate only."""
+    rng = chk.rng
+    for _ in range(1500 if chk.tier == "thorough" else 300):
+        n_iter = rng.choice([rng.randrange(1, 10 ** 4), rng.randrange(1, 10 ** 7), 10000, 1000])
+        r = rng.random()
+        na = None
+        if r < 0.5:
+            frac = rng.random()
+        elif r < 0.8:
+            frac = rng.randrange(0, n_iter + 1) / n_iter
+        elif r < 0.9:
+            frac = rng.randrange(0, 101) / 100
+        else:
+            frac, na = rng.choice([None, 0.5]), rng.randrange(0, n_iter + 1)
+        c = (rng.choice(ALGOS), n_iter, True, 10, 10, na, frac)
+        cj = dict(temp_case_json(c), constructor_only=True)
+        try:
+            got = _build_temp_algo(env, c, None).algo_parameters["annealing"].get("n_iter")
+        except Exception as e:  # noqa
+            chk.impl_failure(cj, f"valid configuration refused by the constructor: {err_class(env, e)}")
+            continue
+        if na is not None:
+            ok = got == na
+        else:
+            exact = Fraction(frac) * n_iter
+            lo, hi = sorted((exact * (1 - Fraction(1, 2 ** 52)), exact * (1 + Fraction(1, 2 ** 52))))
+            ok = is_plain_int(got) and math.trunc(lo) <= got <= math.trunc(hi) and 0 <= got <= n_iter
+        if not ok:
+            chk.impl_failure(cj, f"annealing iterations {got!r}: configured " + (f"count {na}" if na is not None else
+                                 f"fraction {frac!r} of {n_iter} iterations (integer part of the product: {math.trunc(Fraction(frac) * n_iter)})"))
+        chk.case(("na", n_iter, na, repr(frac)), nontrivial=True, tags={"kind": "annealing-count", "given": "count" if na is not None else "frac"})
 
 
 def _short(s, n=600):
@@ -447,8 +674,10 @@ def n_blocks(c):
 def run_std(env, c):
     """Real sampler, `sample()` called once per row with the row's acceptance decisions injected."""
     torch = env["torch"]
-    kws = dict(name="x", shape=tuple(c["shape"]), scale=c["scale"], acceptation_history_length=c["L"],
-               mean_acceptation_rate_target_bounds=tuple(c["band"]), adaptive_std_factor=c["f"])
+    scale = torch.tensor(c["scale"], dtype=torch.float32) if isinstance(c["scale"], list) else c["scale"]   # float or tensor (documented)
+    kws = dict(name="x", shape=tuple(c["shape"]), scale=scale, acceptation_history_length=c["L"],
+               mean_acceptation_rate_target_bounds=(list(c["band"]) if c.get("band_as") == "list" else tuple(c["band"])),
+               adaptive_std_factor=c["f"])
     try:
         if c["sampler"] == "ind":
             s = env["sampler_factory"]("Gibbs", env["Ind"], n_patients=c["n_patients"], **kws)
@@ -551,7 +780,7 @@ def check_std_cases(chk, env, cases):
         res = run_std(env, c)
         results.append(res)
         cj = std_case_json(c)
-        valid = 0 < c["band"][0] < c["band"][1] < 1 and 0 < c["f"] < 1 and c["scale"] > 0 and c["L"] >= 1
+        valid = 0 < c["band"][0] < c["band"][1] < 1 and 0 < c["f"] < 1 and _all_positive(c["scale"]) and c["L"] >= 1
         nontriv = False
         if res["ctor"] != "ok":
             if valid:
@@ -592,6 +821,54 @@ def _short_std(s, n=700):
     return s if len(s) <= n else s[:n] + "…"
 
 
+def _all_positive(x):
+    if isinstance(x, list):
+        return all(_all_positive(y) for y in x)
+    return x > 0
+
+
+def _flat(x):
+    return [z for y in x for z in _flat(y)] if isinstance(x, list) else [x]
+
+
+def _safe_drift(c):
+    """No float32 under/overflow is possible whatever the decisions: every block stays within [1e-36, 1e37] after
+    len(rows)//L adaptations in one direction (the assumption under which the theorems' exact arithmetic applies)."""
+    A = len(c["rows"]) // c["L"]
+    sc = _flat(c["scale"])
+    lo = min(sc) * 0.01 * (1 - c["f"]) ** A
+    hi = max(sc) * 0.5 * (1 + c["f"]) ** A
+    return lo > 1e-36 and hi < 1e37
+
+
+def drift_std_cases(chk):
+    """Long one-directional drifts: every window of a block is all-rejected (the scale shrinks at every adaptation) or
+    all-accepted (it grows) for 100-400 adaptations in a row, next to a block that stays inside the band — the scale must go on
+    changing by exactly the configured factor, however far it has moved from where it started (no floor, no ceiling)."""
+    rng = chk.rng
+    cases = []
+    kinds = ["mh", "gibbs", "ind", "fast"]
+    for i in range(12 if chk.tier == "thorough" else 5):
+        kind = kinds[i % 4]
+        L = rng.choice([1, 2, 3, 3])
+        f = rng.choice([0.1, 0.1, 0.3, 0.5])
+        A = {0.1: rng.randrange(250, 400), 0.3: rng.randrange(120, 180), 0.5: rng.randrange(70, 100)}[f]
+        shape = {"mh": [2], "gibbs": [3], "ind": [2], "fast": [3, 2]}[kind]
+        c = dict(sampler=kind, shape=shape, n_patients=3 if kind == "ind" else None, scale=rng.choice([1.0, 0.3, 7.7]), L=L,
+                 band=[0.2, 0.4], f=f, rod=True, rows=[], origin="drift")
+        nb = n_blocks(c)
+        pats = [rng.choice("01") for _ in range(nb)]
+        if nb >= 3:
+            pats[0], pats[1], pats[2] = "0", "1", "in-band"
+        rows = []
+        for t in range(A * L + rng.randrange(0, L)):
+            rows.append("".join((p if p in "01" else ("1" if (L == 3 and t % 3 == 0) else rng.choice("0001"))) for p in pats))
+        c["rows"] = rows
+        if _safe_drift(c):
+            cases.append(c)
+    return cases
+
+
 def exhaustive_std_cases(chk):
     """Single-block sampler (Metropolis-Hastings on a vector), every 0/1 history of length 2L+1, L = 1..4
     (+ L = 5 with the default band whose bounds are window means), bands with bounds on attainable means."""
@@ -615,8 +892,13 @@ def edge_std_cases(chk):
     """Multi-block samplers, windows whose acceptance counts sit just below / on / just above the bounds."""
     rng = chk.rng
     cases = []
-    for L, band, counts in [(25, (0.2, 0.4), [4, 5, 6, 9, 10, 11]), (10, (0.2, 0.4), [1, 2, 3, 4, 5, 0]),
-                            (20, (0.25, 0.45), [4, 5, 6, 8, 9, 10]), (8, (0.125, 0.875), [0, 1, 2, 6, 7, 8])]:
+    windows = [(25, (0.2, 0.4), [4, 5, 6, 9, 10, 11]), (10, (0.2, 0.4), [1, 2, 3, 4, 5, 0]),
+               (20, (0.25, 0.45), [4, 5, 6, 8, 9, 10]), (8, (0.125, 0.875), [0, 1, 2, 6, 7, 8]),
+               # long windows (the documentation only asks for an int > 0; 50-250 are what slow-mixing fits use)
+               (50, (0.2, 0.4), [9, 10, 11, 19, 20, 21]), (100, (0.2, 0.4), [19, 20, 21, 39, 40, 41])]
+    if chk.tier == "thorough":
+        windows += [(250, (0.3, 0.6), [74, 75, 76, 149, 150, 151]), (128, (0.25, 0.5), [31, 32, 33, 63, 64, 65])]
+    for L, band, counts in windows:
         for kind in ("gibbs", "ind", "fast"):
             nb = len(counts)
             cols = []
@@ -663,6 +945,22 @@ def random_std_cases(chk, n):
         nb = n_blocks(c)
         probs = [rng.choice([0.0, 0.05, 0.15, 0.2, 0.3, 0.4, 0.5, 0.9, 1.0, lo, hi]) for _ in range(nb)]
         c["rows"] = ["".join("1" if rng.random() < probs[j] else "0" for j in range(nb)) for _ in range(steps)]
+        # scales over the whole range a `float > 0` / a positive tensor allows without float32 under/overflow, also one per
+        # coordinate (a tensor of the variable's shape, as the algorithms pass for population variables); band as list or tuple
+        r = rng.random()
+        if r < 0.3:
+            c["scale"] = float(f"{10 ** rng.uniform(-28, 30):.6g}")
+        elif r < 0.5:
+            base = 10 ** rng.uniform(-12, 12)
+
+            def tens(shape):
+                return [float(f"{base * 10 ** rng.uniform(-6, 6):.6g}") if len(shape) == 1 else tens(shape[1:]) for _ in range(shape[0])] \
+                    if shape else float(f"{base:.6g}")
+            c["scale"] = tens(shape)
+        if rng.random() < 0.5:
+            c["band_as"] = "list"
+        if not _safe_drift(c):
+            c["scale"] = 1.0
         cases.append(c)
     # a few refused configurations
     for band, f, scale in [((0.4, 0.2), 0.1, 1.0), ((0.0, 0.4), 0.1, 1.0), ((0.2, 1.0), 0.1, 1.0), ((0.2, 0.4), 0.0, 1.0),
@@ -683,8 +981,14 @@ def real_run_case(chk, env, case):
     from leaspy.io.data import Data
     from leaspy.models import model_factory
     from leaspy.samplers.gibbs import GibbsSamplerMixin as GM
-    df = pd.read_csv(core.REPO / "tests/_data/data_mock/multivariate_data.csv")
-    data = Data.from_dataframe(df)
+    if case["model"] in REAL_KINDS:
+        from . import api_common as A
+        factory_name, which, n_ind, model_kw = REAL_KINDS[case["model"]]
+        data = A.cohort(which, n_ind=n_ind)[1]
+    else:
+        factory_name, model_kw = case["model"], dict(dimension=3, source_dimension=2)
+        df = pd.read_csv(core.REPO / "tests/_data/data_mock/multivariate_data.csv")
+        data = Data.from_dataframe(df)
     rec_T, rec_S = [], {}
     orig_ut, orig_us, orig_ia = AM._update_temperature, GM._update_std, AM._initialize_annealing
 
@@ -703,8 +1007,7 @@ def real_run_case(chk, env, case):
         r["rows"].append("".join("1" if x > 0.5 else "0" for x in self.acceptation_history[-1].reshape(-1).tolist()))
         r["trace"].append(self.std.detach().reshape(-1).tolist())
 
-    kw = dict(dimension=3, source_dimension=2) if case["model"] != "linear" else dict(dimension=3, source_dimension=2)
-    model = model_factory(case["model"], **kw)
+    model = model_factory(factory_name, **model_kw)
     ann = case["annealing"]
     L = case["L"]
     sp = dict(acceptation_history_length=L, mean_acceptation_rate_target_bounds=case["band"], adaptive_std_factor=case["f"])
@@ -715,6 +1018,12 @@ def real_run_case(chk, env, case):
     configured = {True: (ci["L"], list(ci["band"]), ci["f"]), False: (L, list(case["band"]), case["f"])}
     fit_kws = dict(n_iter=case["n_iter"], seed=case["seed"], progress_bar=False, annealing=ann,
                    sampler_ind_params=sp_ind, sampler_pop_params=dict(sp, random_order_dimension=True), sampler_pop=case.get("sampler_pop", "Gibbs"))
+    if case.get("print_periodicity"):
+        # the output manager prints the algorithm (hence every sampler: rate and mean scale) every so many iterations
+        # (it does so only when a logs folder is given)
+        import tempfile
+        logs_dir = tempfile.mkdtemp(prefix="c19_logs_")
+        fit_kws.update(print_periodicity=case["print_periodicity"], path=logs_dir, overwrite_logs_folder=True)
     runs = [("mcmc_saem", case["n_iter"], ann)]
     try:
         AM._update_temperature, GM._update_std, AM._initialize_annealing = ut, us, ia
@@ -730,6 +1039,9 @@ def real_run_case(chk, env, case):
         return
     finally:
         AM._update_temperature, GM._update_std, AM._initialize_annealing = orig_ut, orig_us, orig_ia
+        if case.get("print_periodicity"):
+            import shutil
+            shutil.rmtree(logs_dir, ignore_errors=True)
     # temperatures
     reqs, want = [], []
     if len(rec_T) != len(runs):
@@ -774,12 +1086,35 @@ def real_run_case(chk, env, case):
              sample=case, tags={"kind": "real-run", "model": case["model"]})
 
 
+REAL_KINDS = {
+    # name: (factory name, mock cohort of api_common.cohort, number of individuals or None, hyper-parameters)
+    "univariate": ("logistic", "uni", None, dict(dimension=1)),
+    "joint": ("joint", "joint", 6, dict(source_dimension=1)),
+    "shared_speed": ("shared_speed_logistic", "multi", None, dict(source_dimension=1)),
+    "mixture": ("mixture_logistic", "multi", None, dict(dimension=3, source_dimension=2, n_clusters=2)),
+}
+
+
 def real_cases(chk):
     rng = chk.rng
     base = [dict(kind="real", model="logistic", n_iter=30, seed=0, L=5, band=[0.2, 0.4], f=0.1, ind=dict(L=4, band=[0.3, 0.7], f=0.3),
                  annealing=dict(do_annealing=True, initial_temperature=3.3, n_plateau=4, n_iter_frac=0.5),
                  personalize=dict(algo="mean_posterior", n_iter=20,
                                   annealing=dict(do_annealing=True, initial_temperature=5, n_plateau=8, n_iter_frac=0.8)))]
+    # another model kind (other latent variables, hence other samplers and shapes), another population sampler, short windows,
+    # the printing output manager switched on; personalisation where the mock cohort supports it
+    for i in range(6 if chk.tier == "thorough" else 1):
+        kind = rng.choice(sorted(REAL_KINDS))
+        P = rng.randrange(2, 6)
+        base.append(dict(kind="real", model=kind, n_iter=rng.randrange(14, 30), seed=50 + i, L=rng.choice([2, 3, 4]),
+                         band=rng.choice([[0.2, 0.4], [0.25, 0.5]]), f=rng.choice([0.1, 0.3]),
+                         sampler_pop=rng.choice(["Gibbs", "FastGibbs", "Metropolis-Hastings"]),
+                         ind=dict(L=rng.choice([2, 3, 5]), band=[0.3, 0.7], f=rng.choice([0.2, 0.5])),
+                         print_periodicity=rng.choice([1, 1, 2, 3]),
+                         annealing=dict(do_annealing=True, initial_temperature=rng.choice([2, 3.3, 10]), n_plateau=P, n_iter_frac=rng.choice([0.5, 0.8])),
+                         personalize=(dict(algo=rng.choice(["mean_posterior", "mode_posterior"]), n_iter=rng.randrange(8, 16),
+                                           annealing=dict(do_annealing=True, initial_temperature=5, n_plateau=3, n_iter_frac=0.5))
+                                      if kind in ("univariate", "shared_speed") else None)))
     if chk.tier == "thorough":
         for i in range(12):
             P = rng.randrange(1, 9)
@@ -1275,15 +1610,27 @@ def run(chk: core.Check):
                 "3 hand-picked (boundary every 1-2 iterations, burn-in 0 / inside the annealing, fixed order) + random "
                 "(annealing on/off, explicit count or fraction of burn-in incl. 0, n-1, n, >n, three population sampler kinds); "
                 "non-trivial = the samplers saw at least two different inverse temperatures or the burn-in ends inside the run. "
-                "Distinct by full configuration + history.")
+                "hardening: temperature configurations also given as a partial annealing dictionary (documented defaults), through a "
+                "settings file, as numpy scalars, and through `load_parameters` after construction (before the first run / between two "
+                "runs); NaN initial temperature; fractions whose double product with n_iter falls just below an integer; 100-2000 "
+                "plateaus and runs of 2e3-2e4 iterations; the count of annealing iterations for n_iter up to 1e7 (constructor only); "
+                "scale: 70-400 adaptations in one direction per block (no floor / ceiling), windows of 50 / 100 (thorough: 128 / 250) "
+                "at the band edges, scales from 1e-28 to 1e30 and one scale per coordinate (tensor), band given as list or tuple; "
+                "real runs of other model kinds (univariate, joint, shared-speed, mixture) with short windows and the printing output "
+                "manager switched on. Distinct by full configuration + history.")
     probe_findings(chk, env)
     # corpus first
     corpus = core.load_corpus(PROP)
     t_cases = [temp_case_from_json(c) for c in corpus if c.get("kind") == "temp"]
     s_cases = [{k: v for k, v in c.items() if k != "kind"} for c in corpus if c.get("kind") == "std"]
     t_cases += anchor_temp_cases() + grid_temp_cases(chk) + random_temp_cases(chk, 10000 if chk.tier == "thorough" else 800)
+    t_cases += boundary_temp_cases(chk)
     check_temp_cases(chk, env, t_cases)
+    v_cases, v_hows = variant_temp_cases(chk)
+    check_temp_cases(chk, env, v_cases, sample_some=False, hows=v_hows)
+    na_derivation_check(chk, env)
     s_cases += exhaustive_std_cases(chk) + edge_std_cases(chk) + random_std_cases(chk, 5000 if chk.tier == "thorough" else 400)
+    s_cases += drift_std_cases(chk)
     check_std_cases(chk, env, s_cases)
     for case in real_cases(chk):
         real_run_case(chk, env, case)
@@ -1297,8 +1644,15 @@ def replay(chk: core.Check, payload):
     if not case:
         chk.note("replay file has no case")
         return
-    if case.get("kind") == "temp":
-        check_temp_cases(chk, env, [temp_case_from_json(case)], sample_some=False)
+    if case.get("kind") == "temp" and case.get("constructor_only"):
+        c = temp_case_from_json(case)
+        got = _build_temp_algo(env, c, None).algo_parameters["annealing"].get("n_iter")
+        want = c[5] if c[5] is not None else int(c[6] * c[1])
+        if got != want:
+            chk.impl_failure(case, f"annealing iterations {got!r}, configured {want!r}")
+        chk.case(("na", c[1], c[5], repr(c[6])), sample=case)
+    elif case.get("kind") == "temp":
+        check_temp_cases(chk, env, [temp_case_from_json(case)], sample_some=False, hows=[case.get("how")])
     elif case.get("kind") == "std":
         check_std_cases(chk, env, [{k: v for k, v in case.items() if k != "kind"}])
     elif case.get("kind") == "real":
